@@ -240,7 +240,7 @@ ATTR_NAMES = ['NAME', 'TYPE', 'PARAMTYPE', 'CODE', 'DESCRIPTION',
               'REFERENCECLASS', 'SUPERCLASS', 'OVERRIDABLE', 'TOSUBCLASS',
               'CIMVERSION', 'DTDVERSION', 'PROTOCOLVERSION', 'ID', 'FOO',
               'xml:lang', 'TOINSTANCE', 'TRANSLATABLE']
-N_MUT = 12
+N_MUT = 14
 
 _MUT = st.tuples(st.integers(0, N_MUT - 1), st.integers(0, 10 ** 6),
                  st.integers(0, 10 ** 6), st.integers(0, 10 ** 6))
@@ -336,10 +336,36 @@ def mutate(xml_text, mutations):
                 if el not in anc:
                     el.getparent().remove(el)
                     other.append(el)
+        elif kind == 12:
+            # unwrap: an element is replaced by one of its children (e.g.
+            # VALUE.NAMEDINSTANCE -> INSTANCE, INSTANCEPATH -> INSTANCENAME)
+            wrappers = [e for e in els if len(e) and e.getparent() is not None
+                        and e.tag.startswith(('VALUE.', 'INSTANCEPATH',
+                                              'LOCALINSTANCEPATH',
+                                              'OBJECTPATH', 'CLASSPATH',
+                                              'IRETURNVALUE'))]
+            if wrappers:
+                w = wrappers[a % len(wrappers)]
+                child = w[b % len(w)]
+                w.getparent().replace(w, child)
+        elif kind == 13:
+            # wrap an object element into another wrapper kind
+            objs = [e for e in els if e.getparent() is not None and
+                    e.tag in ('INSTANCE', 'CLASS', 'INSTANCENAME',
+                              'CLASSNAME', 'VALUE')]
+            if objs:
+                e = objs[a % len(objs)]
+                wtag = ['VALUE.OBJECT', 'VALUE.NAMEDINSTANCE',
+                        'VALUE.REFERENCE', 'OBJECTPATH', 'VALUE.ARRAY',
+                        'VALUE.OBJECTWITHPATH', 'IRETURNVALUE'][b % 7]
+                w = etree.Element(wtag)
+                e.getparent().replace(e, w)
+                w.append(e)
         elif kind == 11:
             pv = etree.Element('PARAMVALUE')
             pv.set('NAME', ['EndOfSequence', 'EnumerationContext', 'x',
-                            'QueryResultClass'][b % 4])
+                            'QueryResultClass', 'IRETURNVALUE',
+                            'RETURNVALUE', 'ERROR'][b % 7])
             if c % 3:
                 pv.set('PARAMTYPE', ATTR_VALUES[c % len(ATTR_VALUES)])
             if c % 2:
@@ -461,8 +487,10 @@ def result_type_ok(op, call, r):
             isinstance(r[1], NocaseDict)
     if op in ('OpenEnumerateInstances', 'OpenAssociatorInstances',
               'OpenReferenceInstances', 'PullInstancesWithPath'):
+        # (a server that sends INSTANCE instead of VALUE.INSTANCEWITHPATH
+        # gets instances without path; still a list of CIMInstance)
         return _is_nt(r, ('instances', 'eos', 'context')) and \
-            _insts(r.instances) and isinstance(r.eos, bool) and \
+            _insts(r.instances, False) and isinstance(r.eos, bool) and \
             _ctx_ok(r.context)
     if op in ('OpenEnumerateInstancePaths', 'OpenAssociatorInstancePaths',
               'OpenReferenceInstancePaths', 'PullInstancePaths'):
